@@ -10,9 +10,10 @@ from sa.core import rule, AnalysisError
 from sa.pyindex import (get_module, dotted, src, kwarg, calls_in, walk_no_nested,
                         all_py_files, fold, Unfoldable)
 from sa import flow
-from rules._pytd_schema import (get_schema, serialisation_instances, reaching,
+from rules._pytd_schema import (get_schema, reaching,
                                 defs_at, stored_names, PYTD, NODE, PICKLE,
                                 SERIALIZE)
+from rules import _util_c12c17c18 as U
 
 EXPLANATION = (
     "Static obligations of the pickle round trip, read from the AST of "
@@ -580,13 +581,16 @@ def _eq_hash_class(ctx, rel, mod, cd, struct_info):
   return 1 + n_extra
 
 
-@rule("R12.2", "C12", floor=8)
+@rule("R12.2", "C12", floor=10)
 def r12_2(ctx):
   """Hashed projections are functions of compared projections."""
   sch = get_schema(ctx)
   n = 0
   for rel in (PYTD, NODE, BOOLEQ):
-    mod = get_module(ctx, rel)
+    # __eq__/__hash__ inherited from a base class defined in the same file
+    # are the class's own as far as the law is concerned: every class is
+    # judged on the pair its instances actually use (local MRO)
+    mod = U.virtual(ctx, rel, flatten=True, flatten_names=("__eq__", "__hash__"))
     for cd in mod.tree.body:
       if not isinstance(cd, ast.ClassDef):
         continue
@@ -651,7 +655,10 @@ def _unit_visits(unit):
 def r12_3(ctx):
   """Export pipeline of SerializeAst."""
   sch = get_schema(ctx)
-  smod = get_module(ctx, SERIALIZE)
+  # module-local step functions (`ast = _CleanForExport(ast)`) are inlined:
+  # the pipeline is a property of what SerializeAst does, not of where the
+  # statements are written
+  smod = U.virtual(ctx, SERIALIZE, inline=("SerializeAst",))
   fn = smod.func("SerializeAst")
   ctors = calls_in(fn, name="SerializableAst")
   if len(ctors) != 1:
@@ -666,6 +673,8 @@ def r12_3(ctx):
   # -- canonical ordering: walk the definition chain backwards from the ctor
   verdicts = []   # per path: (has_canonical, visitors_after)
   unknown = []
+  aliases = {var}  # names that denote the very object handed to the ctor
+  lineage = {var}  # names of the trees that object was derived from by .Visit
 
   def back(name, stmt, after, depth, seen):
     if depth > 12:
@@ -677,20 +686,38 @@ def r12_3(ctx):
     for d in defs:
       if d in seen:
         continue
-      v = _visitor_of(d.value) if isinstance(d, ast.Assign) and \
-          len(d.targets) == 1 and dotted(d.targets[0]) == name else None
+      plain = isinstance(d, ast.Assign) and len(d.targets) == 1 and \
+          dotted(d.targets[0]) == name
+      if plain and isinstance(d.value, ast.Name):
+        # `name = other`: the same object under another name
+        if not after:
+          aliases.add(d.value.id)
+        lineage.add(d.value.id)
+        back(d.value.id, d, after, depth + 1, seen | {d})
+        continue
+      v = _visitor_of(d.value) if plain else None
       if v is None:
         # not `name = X.Visit(V())`: nothing is known about its order
         unknown.append(src(d)[:80])
         verdicts.append((False, list(after)))
         continue
       recv, vis = v
+      lineage.add(recv)
       if vis == "CanonicalOrderingVisitor":
         verdicts.append((True, list(after)))
         continue
       back(recv, d, after + [vis], depth + 1, seen | {d})
 
   back(var, cstmt, [], 0, frozenset())
+  # a module-local helper the inliner had to leave as a call may do (or undo)
+  # any of the steps: refuse rather than judge what cannot be seen
+  for c in calls_in(fn):
+    if dotted(c.func) in smod.functions and any(
+        isinstance(a, ast.Name) and a.id in lineage
+        for a in list(c.args) + [k.value for k in c.keywords]):
+      raise AnalysisError(
+          f"SerializeAst: the tree is passed to the helper {dotted(c.func)}, "
+          f"which could not be inlined ({'; '.join(x for x in smod.notes if 'not inlined' in x)[:160]})")
   late = sorted({v for ok, after in verdicts if ok for v in after
                  if v not in _ORDER_PRESERVING_AFTER_CANON})
   if late:
@@ -707,17 +734,19 @@ def r12_3(ctx):
   def gen(unit):
     out = set()
     for recv, vis in _unit_visits(unit):
-      if recv != var:
-        continue
-      if vis == "ClearClassPointers":
+      # ClassType nodes are shared along the whole lineage (ASSUMPTIONS); the
+      # lookup caches belong to the one object that is handed over
+      if vis == "ClearClassPointers" and recv in lineage:
         out.add("pointers-cleared")
-      if vis == "ClearLookupCache":
+      if vis == "ClearLookupCache" and recv in aliases:
         out.add("cache-cleared")
     return out
 
   def kill(unit):
     k = set()
-    if var in stored_names(unit):
+    is_copy = isinstance(unit, ast.Assign) and isinstance(unit.value, ast.Name) \
+        and unit.value.id in aliases
+    if aliases & stored_names(unit) and not is_copy:
       k.add("cache-cleared")
     for _, vis in _unit_visits(unit):
       if vis in _POINTER_SETTERS:
@@ -776,13 +805,17 @@ def r12_3(ctx):
 @rule("R12.4", "C12", floor=9)
 def r12_4(ctx):
   """= R4.4: deterministic encoder, constant gzip header, sorted lists."""
-  serialisation_instances(ctx)
+  U.serialisation_instances(ctx)
 
 
 # -- R12.5 ------------------------------------------------------------------------
 
 _WANT_CAUGHT = ("OSError", "gzip.BadGzipFile", "msgspec.DecodeError",
                 "msgspec.ValidationError")
+
+
+def S_params(fn):
+  return [a.arg for a in fn.args.posonlyargs + fn.args.args]
 
 
 @rule("R12.5", "C12", floor=11)
@@ -801,7 +834,13 @@ def r12_5(ctx):
               f"{name} is typed {got}; the loader promises {typ} (an untyped "
               "decoder yields dicts, a wrong type fails validation)",
               {"type": got})
-  # loaders use their decoder
+  # loaders use their decoder.  The file loader is found by its role: the
+  # module-level function whose call LoadAst / LoadBuiltins return and which
+  # is handed a module-level msgspec Decoder (its name and the name of its
+  # decoder parameter are free)
+  decoders = {nm for nm, v in mod.assigns.items()
+              if isinstance(v, ast.Call) and dotted(v.func) == "msgspec.msgpack.Decoder"}
+  loader_calls = {}
   for fname, dec, how in (("LoadAst", "AstDecoder", "load"),
                           ("LoadBuiltins", "BuiltinsDecoder", "load"),
                           ("DecodeAst", "AstDecoder", "decode"),
@@ -812,21 +851,56 @@ def r12_5(ctx):
       raise AnalysisError(f"{fname}: expected `return <call>`")
     c = rets[0].value
     if how == "load":
-      got = dotted(c.args[0]) if dotted(c.func) == "_Load" and c.args else \
-          (dotted(kwarg(c, "dec")) if dotted(c.func) == "_Load" else None)
+      callee = dotted(c.func)
+      if callee not in mod.functions or callee in S_params(fn):
+        raise AnalysisError(
+            f"{fname}: returns `{src(c)[:60]}`, not a call of a module-level "
+            "loader function")
+      loader_calls[fname] = (callee, c, dec, fn)
     else:
       d = dotted(c.func) or ""
       got = d[:-len(".decode")] if d.endswith(".decode") else None
+      ctx.check(got == dec, f"{fname}:decoder", PICKLE, fn.lineno,
+                f"{fname} must decode with {dec}; uses {got or src(c)}",
+                {"decoder": got})
+  names = {v[0] for v in loader_calls.values()}
+  if len(names) != 1:
+    raise AnalysisError(f"LoadAst / LoadBuiltins use different loaders {sorted(names)}")
+  lname = names.pop()
+  lfn = mod.func(lname)
+  lparams = S_params(lfn)
+  if lfn.args.vararg or lfn.args.kwarg:
+    raise AnalysisError(f"{lname}: star parameters")
+  receives = {}
+  for fname, (_, c, dec, fn) in loader_calls.items():
+    if any(isinstance(a, ast.Starred) for a in c.args) or \
+        any(k.arg is None for k in c.keywords):
+      raise AnalysisError(f"{fname}: star arguments in the loader call")
+    bound = dict(zip(lparams, c.args))
+    for k in c.keywords:
+      bound[k.arg] = k.value
+    receives[fname] = {p: dotted(a) for p, a in bound.items() if dotted(a) in decoders}
+  dec_params = set().union(*[set(r) for r in receives.values()])
+  if not dec_params:
+    # no decoder is handed over at all: the parameter .decode is called on
+    dec_params = {(dotted(c.func) or "")[:-len(".decode")] for c in calls_in(lfn)
+                  if (dotted(c.func) or "").endswith(".decode")} & set(lparams)
+  if len(dec_params) != 1:
+    raise AnalysisError(
+        f"{lname}: the decoder parameter is not identified ({sorted(dec_params)})")
+  dec_param = dec_params.pop()
+  for fname, (_, c, dec, fn) in loader_calls.items():
+    got = receives[fname].get(dec_param)
     ctx.check(got == dec, f"{fname}:decoder", PICKLE, fn.lineno,
               f"{fname} must decode with {dec}; uses {got or src(c)}",
-              {"decoder": got})
-  # _Load: decode inside the try; failures become LoadPickleError
-  fn = mod.func("_Load")
+              {"decoder": got, "loader": lname})
+  # the loader: decode inside the try; failures become LoadPickleError
+  # (constructs keep the historical name `_Load` whatever the function is called)
+  fn = lfn
   tries = [n for n in walk_no_nested(fn) if isinstance(n, ast.Try)]
   if len(tries) != 1:
-    raise AnalysisError("_Load: expected one try statement")
+    raise AnalysisError(f"{lname}: expected one try statement")
   t = tries[0]
-  dec_param = fn.args.args[0].arg
   in_try = [c for st in t.body for c in calls_in(st)
             if dotted(c.func) == f"{dec_param}.decode"]
   all_dec = [c for c in calls_in(fn) if dotted(c.func) == f"{dec_param}.decode"]
@@ -1299,6 +1373,26 @@ _SET_EQ = ("    if self is other:\n      return True\n"
            "      return frozenset(self.type_list) == frozenset(other.type_list)\n"
            "    return NotImplemented\n")
 
+_CLEAN_TAIL = ("  # Clean external references\n"
+               "  ast.Visit(visitors.ClearClassPointers())\n"
+               "  ast = ast.Visit(visitors.CanonicalOrderingVisitor())\n\n"
+               "  # Clear out the Lookup caches.\n"
+               "  ast.Visit(ClearLookupCache())\n")
+_SER_DEF = "def SerializeAst(ast, src_path=None, metadata=None) -> SerializableAst:\n"
+
+
+def _clean_helper(body):
+  return ("def _CleanForExport(tree):\n" + body + "\n\n" + _SER_DEF)
+
+
+_LOAD_CALLS = [
+    (PICKLE, "def _Load(\n    dec: \"_Dec[_DecT]\",",
+     "def _ReadAndDecode(\n    decoder: \"_Dec[_DecT]\","),
+    (PICKLE, "    return dec.decode(data)\n", "    return decoder.decode(data)\n"),
+    (PICKLE, "  return _Load(\n      AstDecoder, filename, compress, open_function\n  )",
+     "  return _ReadAndDecode(\n      AstDecoder, filename, compress, open_function\n  )"),
+]
+
 VARIANTS = [
     # -- R12.1 -----------------------------------------------------------------
     {"name": "field-admits-only-generic-base", "rule": "R12.1", "file": PYTD, "expect": "fire",
@@ -1390,7 +1484,100 @@ VARIANTS = [
     {"name": "twin-eq-operands-swapped", "rule": "R12.2", "file": BOOLEQ, "expect": "silent",
      "old": "        and self.left == other.left\n        and self.right == other.right\n",
      "new": "        and other.left == self.left\n        and other.right == self.right\n"},
+    # class identity hashed, same-class tested in __eq__ (any spelling / form)
+    {"name": "twin-classtype-exact-class-guard-clause", "rule": "R12.2", "file": PYTD,
+     "expect": "silent",
+     "old": "    return self.__class__ == other.__class__ and self.name == other.name\n\n  def __ne__",
+     "new": "    if type(self) is not type(other):\n      return False\n"
+            "    return other.name == self.name\n\n  def __ne__"},
+    {"name": "twin-classtype-hash-spelled-type-self", "rule": "R12.2", "file": PYTD,
+     "expect": "silent",
+     "old": "    return hash((self.__class__.__name__, self.name))",
+     "new": "    return hash((type(self).__name__, self.name))"},
+    {"name": "classtype-hashes-class-but-eq-admits-subclasses", "rule": "R12.2", "file": PYTD,
+     "expect": "fire",
+     "old": "    return self.__class__ == other.__class__ and self.name == other.name\n\n  def __ne__",
+     "new": "    return isinstance(other, type(self)) and self.name == other.name\n\n  def __ne__"},
+    # __eq__/__hash__ resolved through the local MRO
+    {"name": "twin-benign-C17-r2-eq-hash-in-base", "rule": "R12.2",
+     "patch": "benign/C17-r2/patch.diff", "expect": "silent"},
+    {"name": "twin-subclass-restates-inherited-hash", "rule": "R12.2", "file": PYTD,
+     "expect": "silent",
+     "old": "class UnionType(_SetOfTypes):\n  \"\"\"A union type that contains all types in self.type_list.\"\"\"\n",
+     "new": "class UnionType(_SetOfTypes):\n  \"\"\"A union type that contains all types in self.type_list.\"\"\"\n\n"
+            "  def __hash__(self):\n    return hash(frozenset(self.type_list))\n"},
+    {"name": "subclass-hash-ordered-against-inherited-eq", "rule": "R12.2", "file": PYTD,
+     "expect": "fire",
+     "old": "class UnionType(_SetOfTypes):\n  \"\"\"A union type that contains all types in self.type_list.\"\"\"\n",
+     "new": "class UnionType(_SetOfTypes):\n  \"\"\"A union type that contains all types in self.type_list.\"\"\"\n\n"
+            "  def __hash__(self):\n    return hash(self.type_list)\n"},
+    {"name": "junction-base-hashes-uncompared-field", "rule": "R12.2", "expect": "fire",
+     "edits": [
+         (BOOLEQ, "class _And(BooleanTerm):",
+          "class _Junction(BooleanTerm):\n"
+          "  __slots__ = (\"exprs\", \"origin\")\n\n"
+          "  def __eq__(self, other):\n"
+          "    return self.__class__ == other.__class__ and self.exprs == other.exprs\n\n"
+          "  def __hash__(self):\n"
+          "    return hash((_expr_set_hash(self.exprs), self.origin))\n\n\n"
+          "class _And(_Junction):"),
+         (BOOLEQ, "  def __eq__(self, other):\n"
+                  "    return self.__class__ == other.__class__ and self.exprs == other.exprs\n\n"
+                  "  def __repr__(self):\n    return f\"And(",
+          "  def __repr__(self):\n    return f\"And("),
+         (BOOLEQ, "    return \"(\" + \" & \".join(str(t) for t in self.exprs) + \")\"\n\n"
+                  "  def __hash__(self):\n    return _expr_set_hash(self.exprs)\n",
+          "    return \"(\" + \" & \".join(str(t) for t in self.exprs) + \")\"\n")]},
     # -- R12.3 -----------------------------------------------------------------
+    {"name": "twin-benign-C12-r2-step-functions", "rule": "R12.3",
+     "patch": "benign/C12-r2/patch.diff", "expect": "silent"},
+    {"name": "twin-cleanup-in-a-helper", "rule": "R12.3", "expect": "silent",
+     "edits": [
+         (SERIALIZE, _CLEAN_TAIL, "  ast = _CleanForExport(ast)\n"),
+         (SERIALIZE, _SER_DEF, _clean_helper(
+             "  tree.Visit(visitors.ClearClassPointers())\n"
+             "  tree = tree.Visit(visitors.CanonicalOrderingVisitor())\n"
+             "  tree.Visit(ClearLookupCache())\n"
+             "  return tree\n"))]},
+    {"name": "twin-cleanup-helper-result-under-new-name", "rule": "R12.3", "expect": "silent",
+     "edits": [
+         (SERIALIZE, _CLEAN_TAIL, "  exported = _CleanForExport(ast)\n"),
+         (SERIALIZE, "  return SerializableAst(\n      ast,\n", "  return SerializableAst(\n      exported,\n"),
+         (SERIALIZE, _SER_DEF, _clean_helper(
+             "  tree.Visit(visitors.ClearClassPointers())\n"
+             "  result = tree.Visit(visitors.CanonicalOrderingVisitor())\n"
+             "  result.Visit(ClearLookupCache())\n"
+             "  return result\n"))]},
+    {"name": "cleanup-helper-skips-ClearClassPointers", "rule": "R12.3", "expect": "fire",
+     "edits": [
+         (SERIALIZE, _CLEAN_TAIL, "  ast = _CleanForExport(ast)\n"),
+         (SERIALIZE, _SER_DEF, _clean_helper(
+             "  tree = tree.Visit(visitors.CanonicalOrderingVisitor())\n"
+             "  tree.Visit(ClearLookupCache())\n"
+             "  return tree\n"))]},
+    {"name": "cleanup-helper-discards-canonical-result", "rule": "R12.3", "expect": "fire",
+     "edits": [
+         (SERIALIZE, _CLEAN_TAIL, "  ast = _CleanForExport(ast)\n"),
+         (SERIALIZE, _SER_DEF, _clean_helper(
+             "  tree.Visit(visitors.ClearClassPointers())\n"
+             "  tree.Visit(visitors.CanonicalOrderingVisitor())\n"
+             "  tree.Visit(ClearLookupCache())\n"
+             "  return tree\n"))]},
+    {"name": "cleanup-helper-clears-cache-of-the-unsorted-copy", "rule": "R12.3", "expect": "fire",
+     "edits": [
+         (SERIALIZE, _CLEAN_TAIL, "  ast = _CleanForExport(ast)\n"),
+         (SERIALIZE, _SER_DEF, _clean_helper(
+             "  tree.Visit(visitors.ClearClassPointers())\n"
+             "  tree.Visit(ClearLookupCache())\n"
+             "  return tree.Visit(visitors.CanonicalOrderingVisitor())\n"))]},
+    {"name": "cleanup-helper-result-ignored", "rule": "R12.3", "expect": "fire",
+     "edits": [
+         (SERIALIZE, _CLEAN_TAIL, "  _CleanForExport(ast)\n"),
+         (SERIALIZE, _SER_DEF, _clean_helper(
+             "  tree.Visit(visitors.ClearClassPointers())\n"
+             "  tree = tree.Visit(visitors.CanonicalOrderingVisitor())\n"
+             "  tree.Visit(ClearLookupCache())\n"
+             "  return tree\n"))]},
     {"name": "skip-ClearClassPointers", "rule": "R12.3", "file": SERIALIZE, "expect": "fire",
      "old": "  ast.Visit(visitors.ClearClassPointers())\n  ast = ast.Visit(visitors.CanonicalOrderingVisitor())",
      "new": "  ast = ast.Visit(visitors.CanonicalOrderingVisitor())"},
@@ -1438,6 +1625,43 @@ VARIANTS = [
      "new": "  return Encode(ast)"},
     {"name": "dependencies-unsorted", "rule": "R12.4", "file": SERIALIZE, "expect": "fire",
      "old": "      sorted(dependencies.items()),", "new": "      list(dependencies.items()),"},
+    {"name": "twin-benign-C12-r4-inlined-temporaries", "rule": "R12.4",
+     "patch": "benign/C12-r4/patch.diff", "expect": "silent"},
+    {"name": "twin-benign-C12-r2-sorted-in-helper", "rule": "R12.4",
+     "patch": "benign/C12-r2/patch.diff", "expect": "silent"},
+    {"name": "twin-serialize-temporary-inlined", "rule": "R12.4", "file": PICKLE,
+     "expect": "silent",
+     "old": "  out = serialize_ast.SerializeAst(ast, src_path, metadata)\n  return Encode(out)",
+     "new": "  return Encode(serialize_ast.SerializeAst(ast, src_path, metadata))"},
+    {"name": "serialize-inlined-but-encodes-the-raw-ast", "rule": "R12.4", "file": PICKLE,
+     "expect": "fire",
+     "old": "  out = serialize_ast.SerializeAst(ast, src_path, metadata)\n  return Encode(out)",
+     "new": "  serialize_ast.SerializeAst(ast, src_path, metadata)\n  return Encode(ast)"},
+    {"name": "serialize-and-save-rebinds-temporary", "rule": "R12.4", "file": PICKLE,
+     "expect": "fire",
+     "old": "  out = serialize_ast.SerializeAst(ast, src_path, metadata)\n  Save(out,",
+     "new": "  out = serialize_ast.SerializeAst(ast, src_path, metadata)\n"
+            "  if not metadata:\n    out = ast\n  Save(out,"},
+    {"name": "twin-dependencies-sorted-when-collected", "rule": "R12.4", "expect": "silent",
+     "edits": [
+         (SERIALIZE, "  dependencies = deps.dependencies\n  late_dependencies = deps.late_dependencies\n",
+          "  dependencies, late_dependencies = _SortedDeps(deps)\n"),
+         (SERIALIZE, "      sorted(dependencies.items()),\n      sorted(late_dependencies.items()),\n",
+          "      dependencies,\n      late_dependencies,\n"),
+         (SERIALIZE, _SER_DEF,
+          "def _SortedDeps(collector):\n"
+          "  return (sorted(collector.dependencies.items()),\n"
+          "          sorted(collector.late_dependencies.items()))\n\n\n" + _SER_DEF)]},
+    {"name": "helper-sorts-only-the-early-dependencies", "rule": "R12.4", "expect": "fire",
+     "edits": [
+         (SERIALIZE, "  dependencies = deps.dependencies\n  late_dependencies = deps.late_dependencies\n",
+          "  dependencies, late_dependencies = _SortedDeps(deps)\n"),
+         (SERIALIZE, "      sorted(dependencies.items()),\n      sorted(late_dependencies.items()),\n",
+          "      dependencies,\n      late_dependencies,\n"),
+         (SERIALIZE, _SER_DEF,
+          "def _SortedDeps(collector):\n"
+          "  return (sorted(collector.dependencies.items()),\n"
+          "          list(collector.late_dependencies.items()))\n\n\n" + _SER_DEF)]},
     {"name": "twin-encoder-order-sorted", "rule": "R12.4", "file": PICKLE, "expect": "silent",
      "old": "Encoder = msgspec.msgpack.Encoder(order=\"deterministic\")",
      "new": "Encoder = msgspec.msgpack.Encoder(order=\"sorted\")"},
@@ -1472,6 +1696,31 @@ VARIANTS = [
      "new": "        data = fi.read()\n  except ("},
     {"name": "twin-badgzip-implied-by-oserror", "rule": "R12.5", "file": PICKLE, "expect": "silent",
      "old": "      OSError,\n      gzip.BadGzipFile,\n", "new": "      OSError,\n"},
+    {"name": "twin-benign-C12-r4-loader-renamed", "rule": "R12.5",
+     "patch": "benign/C12-r4/patch.diff", "expect": "silent"},
+    {"name": "twin-loader-and-decoder-parameter-renamed", "rule": "R12.5", "expect": "silent",
+     "edits": _LOAD_CALLS + [
+         (PICKLE, "  return _Load(BuiltinsDecoder, filename, compress, open_function)",
+          "  return _ReadAndDecode(BuiltinsDecoder, filename, compress, open_function)")]},
+    {"name": "renamed-loader-given-the-wrong-decoder", "rule": "R12.5", "expect": "fire",
+     "edits": _LOAD_CALLS + [
+         (PICKLE, "  return _Load(BuiltinsDecoder, filename, compress, open_function)",
+          "  return _ReadAndDecode(AstDecoder, filename, compress, open_function)")]},
+    {"name": "renamed-loader-lets-msgspec-errors-escape", "rule": "R12.5", "expect": "fire",
+     "edits": _LOAD_CALLS + [
+         (PICKLE, "  return _Load(BuiltinsDecoder, filename, compress, open_function)",
+          "  return _ReadAndDecode(BuiltinsDecoder, filename, compress, open_function)"),
+         (PICKLE, "      msgspec.DecodeError,\n      msgspec.ValidationError,\n  ) as e:",
+          "  ) as e:")]},
+    {"name": "loaders-split-over-two-functions", "rule": "R12.5", "expect": "error",
+     "edits": [
+         (PICKLE, "  return _Load(BuiltinsDecoder, filename, compress, open_function)",
+          "  return _LoadBundle(BuiltinsDecoder, filename, compress, open_function)"),
+         (PICKLE, "def DecodeAst(data: bytes)",
+          "def _LoadBundle(dec, filename, compress=False, open_function=open):\n"
+          "  with open_function(filename, \"rb\") as fi:\n"
+          "    return dec.decode(fi.read())\n\n\n"
+          "def DecodeAst(data: bytes)")]},
     {"name": "twin-decoder-type-positional", "rule": "R12.5", "file": PICKLE, "expect": "silent",
      "old": "AstDecoder = msgspec.msgpack.Decoder(type=serialize_ast.SerializableAst)",
      "new": "AstDecoder = msgspec.msgpack.Decoder(serialize_ast.SerializableAst)"},
